@@ -119,6 +119,10 @@ pub fn float_line<S: Src>(s: &mut S, k: usize) {
     let on = d == 0 && inbox(f.ip, f.iq, f.ir);
     assert!(l.intersects(&f.p) == on, "Line.intersects(Coord) flipped by rounding");
     assert!(l.contains(&f.p) == (on && f.ip != f.iq && f.ip != f.ir), "Line.contains(Coord) flipped by rounding");
+    // a zero-length segment at p against the long segment, in either operand position
+    let dot = Line::new(f.p, f.p);
+    assert!(dot.intersects(&l) == on, "zero-length Line.intersects(Line) differs from point-on-segment");
+    assert!(l.intersects(&dot) == on, "Line.intersects(zero-length Line) differs from point-on-segment");
     // a segment from p to the concrete corner (r.x, q.y), which is off the line q-r
     let far = coord! { x: f.r.x, y: f.q.y };
     let ifar = (f.ir.0, f.iq.1);
